@@ -217,7 +217,7 @@ def build_harnesses(specs):
 def run_lines(exe, lines, timeout=600, env=None):
     """feed case lines to an executable; returns (output lines, crash text or None)"""
     e = dict(os.environ)
-    e["ASAN_OPTIONS"] = "detect_leaks=1:abort_on_error=0:exitcode=99"
+    e["ASAN_OPTIONS"] = "detect_leaks=1:abort_on_error=0:exitcode=99:detect_stack_use_after_return=0"
     e["UBSAN_OPTIONS"] = "print_stacktrace=1:halt_on_error=1:exitcode=98"
     if env:
         e.update(env)
